@@ -202,3 +202,29 @@ class StateMonitor:
     def __exit__(self, *a):
         self.uninstall()
         return False
+
+
+# ---- entry point for the kit's plug-in (vk/mon/universal.py style): register under the name "state" ----------------------
+class _LogSink:
+    """Adapts a vk.mon.universal.Log (count / violation(prop, mechanism, summary, **extra)) to the sink protocol."""
+
+    def __init__(self, log, prop="C36"):
+        self.log, self.prop = log, prop
+
+    def mon(self):
+        self.log.count("state:judged")
+
+    def case(self):
+        pass
+
+    def count(self, k):
+        self.log.count("state:" + k)
+
+    def violation(self, mechanism, summary, info):
+        self.log.violation(self.prop, "monitor:" + mechanism, summary, **{"event": info})
+
+
+def install(log):
+    """Installs M-state on UPState; every judged call is counted as 'state:judged'. Returns the uninstall callable."""
+    mon = StateMonitor(_LogSink(log)).install()
+    return mon.uninstall
